@@ -133,32 +133,118 @@ theorem trigger_bypasses_filter (wt : Watcher) (ev : Ev) :
   simp [passes, typed, evType]
 
 theorem trigger_runs_update_with_flag_set (c : Cfg) (f : Nat) (ps : List Nat) (w : World) :
-    ∃ kvs, (∀ kv ∈ kvs, kv.2 = getVal w kv.1) ∧
-      (run c (f + 1) (.trigger ps) w).1 = (run c f (.update kvs) { w with events := [], queued := [], trigger := true }).1 := by
-  refine ⟨dedupKeys (ps.map (fun p => (p, getVal w p))), ?_, by simp [run]⟩
-  exact dedupKeys_values (getVal w) _ (by intro kv hkv; obtain ⟨p, _, rfl⟩ := List.mem_map.1 hkv; rfl)
+    (run c (f + 1) (.trigger ps) w).1 =
+      (run c f (.update (triggerKvs c w ps)) { w with events := [], queued := [], trigger := true }).1 ∧
+    (∀ kv ∈ triggerKvs c w ps, kv.2 = if c.isEvent kv.1 then 1 else getVal w kv.1) := by
+  refine ⟨by simp [run], ?_⟩
+  exact dedupKeys_values (fun p => if c.isEvent p then 1 else getVal w p) _
+    (by intro kv hkv; obtain ⟨p, _, rfl⟩ := List.mem_map.1 hkv; rfl)
 
-/-- **C04 (`trigger` alters no value).**  Inside an open batch — where no callback can interfere —
-`trigger` leaves every value as it was (and, by `no_watcher_runs_while_open`, runs nothing). -/
+theorem foldl_set_zero_getD (tps : List Nat) : ∀ (vs : List Int) (q : Nat),
+    (tps.foldl (fun vs tp => vs.set tp 0) vs).getD q 0 = if q ∈ tps then 0 else vs.getD q 0 := by
+  induction tps with
+  | nil => intro vs q; simp
+  | cons t rest ih =>
+    intro vs q
+    simp only [List.foldl_cons, ih, List.mem_cons]
+    by_cases hq : q ∈ rest
+    · simp [hq]
+    · simp only [hq, if_false, or_false]
+      by_cases e : q = t
+      · subst e
+        rw [if_pos rfl]
+        by_cases hl : q < vs.length
+        · simp [List.getD, List.getElem?_set_self hl]
+        · have : (vs.set q 0)[q]? = none := List.getElem?_eq_none (by simpa using Nat.le_of_not_lt hl)
+          simp [List.getD, this]
+      · rw [if_neg e]
+        exact getD_set_ne _ _ _ _ (Ne.symm e)
+
+theorem mem_dedupKeys_keys (q : Nat) : ∀ (l : List (Nat × Int)), q ∈ l.map (·.1) → q ∈ (dedupKeys l).map (·.1) := by
+  intro l
+  induction l with
+  | nil => simp
+  | cons x rest ih =>
+    obtain ⟨k, v⟩ := x
+    intro hm
+    simp only [dedupKeys]
+    by_cases e : q = k
+    · subst e; split <;> simp
+    · have hm' : q ∈ rest.map (·.1) := by
+        simp only [List.map_cons, List.mem_cons] at hm
+        rcases hm with hm | hm
+        · exact absurd hm e
+        · exact hm
+      obtain ⟨kv, hkvm, hkv1⟩ := List.mem_map.1 (ih hm')
+      split
+      · simp only [List.map_cons, List.mem_cons]
+        right
+        refine List.mem_map.2 ⟨kv, List.mem_filter.2 ⟨hkvm, ?_⟩, hkv1⟩
+        simp only [ne_eq, decide_not, Bool.not_eq_eq_eq_not, Bool.not_true, decide_eq_false_iff_not]
+        rw [hkv1]; exact e
+      · simp only [List.map_cons, List.mem_cons]
+        exact Or.inr (List.mem_map.2 ⟨kv, hkvm, hkv1⟩)
+
+/-- `_update` while a batch is open: nothing runs, a non-Event parameter keeps its value unless a
+key assigns it a different one, and every Event parameter among the keys is False afterwards. -/
+theorem update_in_batch_values (c : Cfg) (f : Nat) (kvs : List (Nat × Int)) (w : World) (hb : w.batch = true)
+    (h : (run c f (.update kvs) w).1 ≠ .oof) (q : Nat) :
+    (c.isEvent q = false → (∀ kv ∈ kvs, kv.1 = q → kv.2 = getVal w q) →
+        getVal (run c f (.update kvs) w).2.1 q = getVal w q) ∧
+    (c.isEvent q = true → q ∈ kvs.map (·.1) → getVal (run c f (.update kvs) w).2.1 q = 0) := by
+  cases f with
+  | zero => simp [run] at h
+  | succ f =>
+    simp only [run, hb, if_true] at h ⊢
+    have hu := fun (hqe : c.isEvent q = false) =>
+      updateKeys_in_batch_getVal c q hqe kvs f
+        { w with batch := true, setMode := (kvs.map (·.1)).filter c.isEvent ++ w.setMode } rfl
+    generalize run c f (.updateKeys kvs)
+      { w with batch := true, setMode := (kvs.map (·.1)).filter c.isEvent ++ w.setMode } = d at h hu ⊢
+    obtain ⟨r1, w1, o1⟩ := d
+    have hne : r1 ≠ .oof := by intro e; subst e; simp at h
+    have hgoal : (c.isEvent q = false → (∀ kv ∈ kvs, kv.1 = q → kv.2 = getVal w q) →
+        (List.foldl (fun vs tp => vs.set tp 0) w1.vals ((kvs.map (·.1)).filter c.isEvent)).getD q 0 = getVal w q) ∧
+      (c.isEvent q = true → q ∈ kvs.map (·.1) →
+        (List.foldl (fun vs tp => vs.set tp 0) w1.vals ((kvs.map (·.1)).filter c.isEvent)).getD q 0 = 0) := by
+      simp only [foldl_set_zero_getD]
+      refine ⟨fun hqe hsame => ?_, fun hqe hq => ?_⟩
+      · have hnot : q ∉ (kvs.map (·.1)).filter c.isEvent := by
+          intro hm; have := (List.mem_filter.1 hm).2; rw [hqe] at this; cases this
+        simp only [hnot, if_false]
+        have := hu hqe (by intro kv hkv e; rw [hsame kv hkv e]; rfl) hne
+        simpa [getVal] using this
+      · have : q ∈ (kvs.map (·.1)).filter c.isEvent := List.mem_filter.2 ⟨hq, hqe⟩
+        simp [this]
+    cases r1 with
+    | oof => exact absurd rfl hne
+    | ok => simpa [getVal] using hgoal
+    | raised e => simpa [getVal] using hgoal
+
+/-- **C04 (`trigger` alters no value other than the transient True of Event parameters).**  Inside
+an open batch — where no callback can interfere — `trigger` leaves the value of every non-Event
+parameter as it was, and every triggered Event parameter is False again when `trigger` returns
+(or raises). -/
 theorem trigger_changes_no_value (c : Cfg) (f : Nat) (ps : List Nat) (w : World) (hb : w.batch = true)
-    (h : (run c f (.trigger ps) w).1 ≠ .oof) : (run c f (.trigger ps) w).2.1.vals = w.vals := by
+    (h : (run c f (.trigger ps) w).1 ≠ .oof) (q : Nat) :
+    (c.isEvent q = false → getVal (run c f (.trigger ps) w).2.1 q = getVal w q) ∧
+    (c.isEvent q = true → q ∈ ps → getVal (run c f (.trigger ps) w).2.1 q = 0) := by
   cases f with
   | zero => simp [run] at h
   | succ f =>
     simp only [run] at h ⊢
-    cases f with
-    | zero => simp [run] at h
-    | succ f =>
-      simp only [run, hb, if_true] at h ⊢
-      have hsame : ∀ kv ∈ dedupKeys (ps.map (fun p => (p, getVal w p))),
-          kv.2 = getVal { w with batch := true, events := [], queued := [], trigger := true } kv.1 :=
-        dedupKeys_values (getVal w) _ (by intro kv hkv; obtain ⟨p, _, rfl⟩ := List.mem_map.1 hkv; rfl)
-      have hu := updateKeys_same_values c (dedupKeys (ps.map (fun p => (p, getVal w p)))) f
-        { w with batch := true, events := [], queued := [], trigger := true } rfl hsame
-      generalize run c f (.updateKeys (dedupKeys (ps.map (fun p => (p, getVal w p)))))
-        { w with batch := true, events := [], queued := [], trigger := true } = d at h hu ⊢
-      obtain ⟨r1, w1, o1⟩ := d
-      cases r1 <;> simp_all
+    have hkv := (trigger_runs_update_with_flag_set c 0 ps w).2
+    have hu := update_in_batch_values c f (triggerKvs c w ps)
+      { w with events := [], queued := [], trigger := true } hb h q
+    refine ⟨fun hqe => ?_, fun hqe hq => ?_⟩
+    · have := hu.1 hqe (by
+        intro kv hkv' e
+        rw [hkv kv hkv', e, hqe]; rfl)
+      simpa [getVal] using this
+    · have := hu.2 hqe (mem_dedupKeys_keys q _ (by
+        simp only [List.map_map]
+        exact List.mem_map.2 ⟨q, hq, rfl⟩))
+      simpa [getVal] using this
 
 /-! ### Non-vacuity -/
 
